@@ -74,6 +74,15 @@ type Registry struct {
 	Line   string
 }
 
+// RegistryValues: per registered key, the constant value of one argument (or of
+// one field of a struct-literal argument) of the Register call in init.
+type RegistryValues struct {
+	Global string
+	Arg    string
+	Vals   map[int64]int64
+	Line   string
+}
+
 type SpecFunc struct {
 	Name string
 	Args []string
@@ -94,6 +103,7 @@ type ContractSet struct {
 	GhostFields map[string]bool
 	GhostConst  map[string]bool
 	Registries  map[string]*Registry
+	RegValues   []*RegistryValues
 	Pure   []string // patterns
 	Files  []string
 	Axioms []Clause
@@ -191,6 +201,28 @@ func (cs *ContractSet) loadFile(path string) error {
 				}
 			}
 			cs.Macros[sm.Name] = sm
+			continue
+		}
+		if strings.HasPrefix(l, "registry-values ") {
+			// registry-values <global> arg<N>[.Field] k=v,k=v,...   constant argument of the Register call per key
+			f := strings.Fields(l)
+			if len(f) < 4 {
+				return fmt.Errorf("%s: registry-values <global> arg<N>[.Field] k=v,...", loc)
+			}
+			rv := &RegistryValues{Global: f[1], Arg: f[2], Line: loc, Vals: map[int64]int64{}}
+			for _, kv := range strings.Split(strings.Join(f[3:], ""), ",") {
+				if kv = strings.TrimSpace(kv); kv == "" {
+					continue
+				}
+				ks, vs, ok := strings.Cut(kv, "=")
+				k, e1 := strconv.ParseInt(ks, 0, 64)
+				v, e2 := strconv.ParseInt(vs, 0, 64)
+				if !ok || e1 != nil || e2 != nil {
+					return fmt.Errorf("%s: bad registry value %q", loc, kv)
+				}
+				rv.Vals[k] = v
+			}
+			cs.RegValues = append(cs.RegValues, rv)
 			continue
 		}
 		if strings.HasPrefix(l, "registry ") {
